@@ -43,7 +43,7 @@ def dbAllocs (t : Nat) (p : Nat × Db) : List Nat := p.2.flatMap (entryAllocs t)
 structure EntryOk (fix : Fix) (e : Entry) : Prop where
   key : strOk e.key = true
   val : valueWF (escValue fix.listEscape e.val) = true
-  dl : ∀ d, e.deadline = some d → d < two64
+  dl : ∀ d, e.deadline = some d → d ≤ i64max
   nomarker : startsWithMarker e.val = false ∨ fix.listEscape = true
   stream : isEmptyStream e.val = false ∨ fix.keepEmptyStream = true
 
@@ -107,9 +107,9 @@ theorem loadLoop_entry (fix : Fix) (t now : Nat) (s : Store) (i : Nat) (hi : i <
   simp only at hk hv hdl hm hs hfresh
   simp only [escEntry_mk] at hfuel ⊢
   have hty := typeByte_le v
-  have hkv : ∀ dl' r, loadTyped fix true acc (typeByte v) dl' (encString k ++ (encValue (escValue fix.listEscape v) ++ r)) =
+  have hkv : ∀ dl', dlOk dl' = true → ∀ r, loadTyped fix true acc (typeByte v) dl' (encString k ++ (encValue (escValue fix.listEscape v) ++ r)) =
       .ok (k, acc ++ [⟨k, v, dl'⟩]) r (k.length :: valueAllocs (escValue fix.listEscape v)) :=
-    fun dl' r => loadTyped_encKV fix acc k v dl' hk hv hm hs hfresh r
+    fun dl' hd' r => loadTyped_encKV fix acc k v dl' hd' hk hv hm hs hfresh r
   have hvalid : decide (i < numDbs) = true := by simp [hi]
   cases dl with
   | none =>
@@ -127,10 +127,11 @@ theorem loadLoop_entry (fix : Fix) (t now : Nat) (s : Store) (i : Nat) (hi : i <
         rw [loadLoop]
         simp only [encEntry, encKV, typeByte_escValue, List.cons_append, readByte, Res.bind_ok, Res.pre_nil, h1, h2, h3, h4, h5, h6,
           if_false, getDb_withDb s i acc his, hvalid, List.append_assoc]
-        rw [hkv none rest]
+        rw [hkv none rfl rest]
         simp only [Res.bind_ok, setDb_withDb s i _ _ his, loadedEntry, entryAllocs]
   | some d =>
-    have hd := hdl d rfl
+    have hd64 := hdl d rfl
+    have hd : d < two64 := by simp only [i64max] at hd64; simp only [two64]; omega
     by_cases hdt : d < t
     · refine ⟨fuel, ?_, ?_⟩
       · simpa [encEntry, hdt] using hfuel
@@ -151,20 +152,20 @@ theorem loadLoop_entry (fix : Fix) (t now : Nat) (s : Store) (i : Nat) (hi : i <
           by_cases hnow : d > now
           · have hnow' : now < d := hnow
             simp only [hnow, if_true]
-            rw [hkv (some d) rest]
+            rw [hkv (some d) (by simpa [dlOk] using hd64) rest]
             simp only [Res.bind_ok, Res.pre_ok, setDb_withDb s i _ _ his, loadedEntry, entryAllocs, hdt, hnow',
               if_false, if_true, List.append_nil, List.nil_append, Res.pre_nil]
           · have hnow' : ¬ now < d := hnow
             simp only [hnow, if_false]
             by_cases hfix : fix.dropExpired = true
             · simp only [hfix, if_true]
-              rw [hkv none rest]
+              rw [hkv none rfl rest]
               have her := eraseKey_append_single acc ⟨k, v, none⟩ hfresh
               simp only at her
               simp only [Res.bind_ok, Res.pre_ok, her, setDb_withDb s i _ _ his, loadedEntry, entryAllocs, hdt,
                 hnow', hfix, if_false, if_true, List.append_nil, List.nil_append, Res.pre_nil, lift_ok]
             · simp only [hfix, if_false]
-              rw [hkv none rest]
+              rw [hkv none rfl rest]
               simp only [Res.bind_ok, Res.pre_ok, setDb_withDb s i _ _ his, loadedEntry, entryAllocs, hdt,
                 hnow', hfix, if_false, if_true, List.append_nil, List.nil_append, Res.pre_nil,
                 Bool.false_eq_true]
